@@ -149,10 +149,15 @@ def parse_known(prop):
     """known_findings.txt: lines 'finding: property=Cxx id=<id> class=<..> witness=<..> <text>'
     and 'fixed: property=Cxx <commit> <text>'"""
     res = []
-    p = os.path.join(VERIF, "known_findings.txt")
-    if not os.path.exists(p):
-        return res
-    for line in open(p):
+    files = [os.path.join(VERIF, "known_findings.txt")]
+    dd = os.path.join(VERIF, "known_findings.d")      # per-property drafts, merged into the main file
+    if os.path.isdir(dd):
+        files += sorted(os.path.join(dd, f) for f in os.listdir(dd))
+    lines = []
+    for p in files:
+        if os.path.exists(p):
+            lines += open(p).read().split("\n")
+    for line in lines:
         line = line.strip()
         if not line.startswith("finding:"):
             continue
@@ -207,9 +212,10 @@ def step_proofs(ctx, mod):
                         bad.append("%s: %s outside a section" % (f, s[:40]))
     ctx.obligation("hygiene(no Admitted/Axiom/Parameter/unsafe flags)", not bad, "; ".join(bad[:5]))
     # pins + assumptions
-    pins = json.load(open(os.path.join(COQ, "Props", "PINS.json")))
     for pf in mod.PROPS_FILES:
         path = os.path.join(COQ, "Props", pf + ".v")
+        pinf = os.path.join(COQ, "Props", pf + ".pins.json")
+        pins = {pf: json.load(open(pinf))} if os.path.exists(pinf) else {}
         stm = [s for s in statements(path) if s[0] in ("Theorem", "Lemma", "Corollary", "Example")]
         want = pins.get(pf, {})
         have = {n: hashlib.sha256(s.encode()).hexdigest()[:16] for _, n, s in stm}
@@ -294,7 +300,11 @@ def step_anchors(ctx, mod):
 
 def build_harness(ctx, features=(), target="target", profile="release"):
     t = time.time()
-    lock_src = os.path.join(REPO, "Cargo.lock")
+    link = os.path.join(HARNESS, "norad-src")       # the path dependency of the harness crate
+    if not os.path.islink(link) or os.readlink(link) != REPO:
+        if os.path.lexists(link):
+            os.remove(link)
+        os.symlink(REPO, link)
     env = {"CARGO_TARGET_DIR": os.path.join(HARNESS, target)}
     cmd = ["cargo", "build", "--offline", "--quiet"]
     if profile == "release":
@@ -441,20 +451,20 @@ def finish(ctx, mod, known):
     return rc
 
 
-def repin():
-    pins = {}
+def repin(only):
+    """(re)write coq/Props/<file>.pins.json: hash of every theorem statement of that Props file"""
     pd = os.path.join(COQ, "Props")
     for f in sorted(os.listdir(pd)):
-        if f.endswith(".v"):
+        if f.endswith(".v") and (not only or f[:-2] in only):
             stm = [s for s in statements(os.path.join(pd, f)) if s[0] in ("Theorem", "Lemma", "Corollary", "Example")]
-            pins[f[:-2]] = {n: hashlib.sha256(s.encode()).hexdigest()[:16] for _, n, s in stm}
-    json.dump(pins, open(os.path.join(pd, "PINS.json"), "w"), indent=1, sort_keys=True)
-    print("pinned", sum(len(v) for v in pins.values()), "statements")
+            pins = {n: hashlib.sha256(s.encode()).hexdigest()[:16] for _, n, s in stm}
+            json.dump(pins, open(os.path.join(pd, f[:-2] + ".pins.json"), "w"), indent=1, sort_keys=True)
+            print("pinned", len(pins), "statements of", f)
 
 
 def main(argv):
     if argv and argv[0] == "--repin":
-        repin()
+        repin(argv[1:])
         return 0
     if not argv:
         print("usage: check Cxx [--tier quick|thorough] [--seed N] [--replay FILE]")
